@@ -260,6 +260,19 @@ impl Datagrams {
         }
     }
 
+    /// Whether a relay can forward these datagrams to their destination.
+    ///
+    /// The frame sent to the receiving client carries the same datagrams, so they must be
+    /// non-empty and, framed as a relay-to-client message, fit [`MAX_PACKET_SIZE`]: exactly
+    /// what the sending half of a relay connection requires of every message it sends.
+    #[cfg(feature = "server")]
+    pub(crate) fn is_forwardable(&self) -> bool {
+        let frame_len = FrameType::RelayToClientDatagram.encoded_len()
+            + EndpointId::LENGTH
+            + self.encoded_len();
+        !self.contents.is_empty() && frame_len <= MAX_PACKET_SIZE
+    }
+
     fn write_to<O: BufMut>(&self, mut dst: O) -> O {
         let ecn = self.ecn.map_or(0, |ecn| ecn as u8);
         dst.put_u8(ecn);
